@@ -81,6 +81,12 @@ def local_checks(b, rs, viol, stats):
         if op["op"] != "step":
             continue
         pre, post, h = op["pre"], op["post"], op["dt"]
+        m_pre, P_pre = embed.normal_np(pre.u)
+        if not (onp.all(onp.isfinite(m_pre)) and onp.all(onp.isfinite(P_pre))):
+            # the step that produced this state has been reported already (EKF-finite / the known finding); a
+            # reference step from a non-finite state is meaningless
+            stats["steps_from_nonfinite_state"] = stats.get("steps_from_nonfinite_state", 0) + 1
+            continue
         mp_m, mp_P = embed.normal_mp(pre.u)
         st = model.step(mp_m, mp_P, mpf(float(pre.t)), mpf(h))
         m, P = embed.normal_np(post.u)
